@@ -17,6 +17,18 @@ IDENT = {"static": (b"my ident", b"my ident"), "tpl": (b"id-%{snoopy_literal:X}"
          "long255": (b"i" * 250 + b"dent5", b"i" * 250 + b"dent5")}
 
 
+def preload(build):
+    """LD_PRELOAD for the production library + recorder; sanitizer builds need the sanitizer runtime first and a recorder
+    that leaves the allocator alone"""
+    if build["variant"].startswith("asan"):
+        asan = subprocess.run(["gcc", "-print-file-name=libasan.so"], capture_output=True, text=True).stdout.strip()
+        return ":".join([asan, build["lib"], os.path.join(c.BUILD, "librec-noalloc.so")])
+    return ":".join([build["lib"], os.path.join(c.BUILD, "librec.so")])
+
+
+SAN_ENV = {"ASAN_OPTIONS": "detect_leaks=0:abort_on_error=1:handle_segv=0:allocator_may_return_null=1", "UBSAN_OPTIONS": "halt_on_error=1:abort_on_error=1:print_stacktrace=1"}
+
+
 class Ctx:
     """Paths of one worker (one xdrv process, one private etc directory)."""
 
@@ -314,7 +326,7 @@ def run_batches(build, items, workdir, workers=None, warm=True, snap=True, timeo
     def one(i):
         ctx = ctxs[i]
         script = build_script(ctx, batches[i], warm=warm, snap=snap)
-        pre = ":".join([build["lib"], os.path.join(c.BUILD, "librec.so")])
+        pre = preload(build)
         sp = os.path.join(ctx.w, "script")
         op = os.path.join(ctx.w, "out")
         with open(sp, "w") as f:
@@ -322,7 +334,7 @@ def run_batches(build, items, workdir, workers=None, warm=True, snap=True, timeo
         if os.path.exists(op):
             os.unlink(op)
         ini = os.path.join(ctx.etc, "snoopy.ini") if can_ns else build["ini"]
-        cmd = ["env", "LD_PRELOAD=" + pre, "XDRV_INI=" + ini, os.path.join(c.BUILD, "xdrv"), sp, op]
+        cmd = ["env", "LD_PRELOAD=" + pre] + ["%s=%s" % kv for kv in SAN_ENV.items()] + [ "XDRV_INI=" + ini, os.path.join(c.BUILD, "xdrv"), sp, op]
         env = {"PATH": "/usr/sbin:/usr/bin:/sbin:/bin", "HOME": "/root", "LANG": "C", "TZ": "UTC"}
         try:
             p = subprocess.run(cmd, env=env, capture_output=True, timeout=timeout, stdin=subprocess.DEVNULL, cwd=ctx.w)
